@@ -28,7 +28,7 @@ using sim::Workload;
 using sim::Result;
 using sim::Rng;
 
-enum { C_VARIANT = 0, C_QLEN, C_RECYCLE, C_UNIVERSE };
+enum { C_VARIANT = 0, C_QLEN, C_RECYCLE, C_UNIVERSE, C_ARENAS };
 enum {
     B_INSERT = 0, B_INSERT_HINT, B_INSERT_RANGE, B_ERASE_KEY, B_ERASE_ONE, B_ERASE_ITER, B_CLEAR, B_COPY_CTOR, B_ASSIGN, B_SWAP,
     B_BULK_LOAD, B_DESTROY, B_CONSTRUCT, B_N
@@ -74,6 +74,10 @@ void run(const Workload& w, Result& res, bool tracked) {
     std::unique_ptr<C> t[NS];
     std::multiset<int> shadow[NS];
     const int universe = int(4 + sim::modn(sim::cfg_at(w, C_UNIVERSE), 397));
+    // each tree slot gets its own allocator instance (instances compare unequal) or all share one
+    const bool arenas = sim::modn(sim::cfg_at(w, C_ARENAS), 2) == 1;
+    auto fresh = [&](int slot) { return std::make_unique<C>(typename C::allocator_type(arenas ? slot + 1 : 0)); };
+    if (arenas) res.probe("distinct_allocator_instances");
     static const char* names[] = {"insert", "insert_hint", "insert_range", "erase_key", "erase_one", "erase_iter", "clear", "copy_ctor",
                                   "assign", "swap", "bulk_load", "destroy", "construct"};
     int step = 0, payload = 1;
@@ -85,7 +89,7 @@ void run(const Workload& w, Result& res, bool tracked) {
         int i = int(sim::modn(op.size() > 1 ? op[1] : 0, NS)), j = int(sim::modn(op.size() > 2 ? op[2] : 0, NS));
         int k = int(sim::modn(op.size() > 3 ? op[3] : 0, universe));   // (op[3] may exceed the universe: big-tree mode)
         int arg = int(sim::modn(op.size() > 4 ? op[4] : 0, 64));
-        if (!t[i] && code != B_CONSTRUCT && code != B_COPY_CTOR) { t[i] = std::make_unique<C>(); shadow[i].clear(); }
+        if (!t[i] && code != B_CONSTRUCT && code != B_COPY_CTOR) { t[i] = fresh(i); shadow[i].clear(); }
         std::string at = std::string(names[code]) + "(" + std::to_string(i) + "," + std::to_string(j) + "," + std::to_string(k) + "," + std::to_string(arg) + ") at step " + std::to_string(step);
         try {
             switch (code) {
@@ -132,7 +136,7 @@ void run(const Workload& w, Result& res, bool tracked) {
             case B_CLEAR: t[i]->clear(); shadow[i].clear(); break;
             case B_COPY_CTOR:
                 if (t[j]) { auto c = std::make_unique<C>(*t[j]); auto sh = shadow[j]; t[i] = std::move(c); shadow[i] = sh; }
-                else { t[i] = std::make_unique<C>(); shadow[i].clear(); }
+                else { t[i] = fresh(i); shadow[i].clear(); }
                 break;
             case B_ASSIGN: if (t[j]) { *t[i] = *t[j]; auto sh = shadow[j]; shadow[i] = sh; } break;
             case B_SWAP: if (t[j]) { t[i]->swap(*t[j]); std::swap(shadow[i], shadow[j]); } break;
@@ -153,7 +157,7 @@ void run(const Workload& w, Result& res, bool tracked) {
                 break;
             }
             case B_DESTROY: t[i] = nullptr; shadow[i].clear(); break;
-            case B_CONSTRUCT: t[i] = nullptr; t[i] = std::make_unique<C>(); shadow[i].clear(); break;
+            case B_CONSTRUCT: t[i] = nullptr; t[i] = fresh(i); shadow[i].clear(); break;
             }
             // ---- the oracle: self-check of every live tree after every mutating call ----
             size_t nodes = 0, elems = 0;
@@ -219,7 +223,7 @@ void execute(const Workload& w, Result& res) {
 void generate(Rng& r, Workload& w, int tier) {
     int mode = int(r.below(4));   // 0 mixed, 1 insert heavy then erase heavy, 2 small, 3 big tree then long erase phase
     int64_t universe = mode == 3 ? int64_t(r.range(60, 396)) : int64_t(r.below(37));
-    w.cfg = {int64_t(r.below(NVARIANTS)), int64_t(r.below(5)), int64_t(r.below(4)), universe};
+    w.cfg = {int64_t(r.below(NVARIANTS)), int64_t(r.below(5)), int64_t(r.below(4)), universe, int64_t(r.below(2))};
     int n = int(r.range(1, tier ? 160 : 120));
     if (mode == 2) n = int(r.range(1, 20));
     if (mode == 3) {
